@@ -15,7 +15,7 @@ def check(ctx: Ctx) -> None:
     SP.r_spawner_group(ctx, "R10.2s")
     SP.r_map_returns_name(ctx, "R10.2m")
     N.r_group_name_generator(ctx, "R10.3")
-    A.r_raise_inventory(ctx, "R10.4")
+    A.r_raise_inventory(ctx, "R10.4", classes={"TaskGroupAlreadyExists"}, guards={"dup"})
     N.r_get_group_ids(ctx, "R10.4g")
     S.r_atomic_slot_registry(ctx, "R10.5")
     # live groups never share an id only if ids are unique: shared obligation with C11
